@@ -19,7 +19,7 @@ EXPLANATION = (
     "evaluated for both timer types), both in one record for self.ac_id."
 )
 ASSUMPTIONS = ["round() is Python's banker's rounding; ties are outside the decided clauses"]
-FLOORS = {"C11.R1": 12, "C11.R2": 8, "C11.R3": 18, "C11.R4": 6, "C11.R5": 8}
+FLOORS = {"C11.R1": 12, "C11.R2": 8, "C11.R3": 18, "C11.R4": 6, "C11.R5": 8, "C11.R6": 1}
 
 ZONES = ((AT4_API, "At4Zone"), (AT5_API, "At5Zone"))
 ACS = ((AT4_API, "At4AirConditioner"), (AT5_API, "At5AirConditioner"))
@@ -31,6 +31,11 @@ def run(ctx):
     r3(ctx)
     r4(ctx)
     r5(ctx)
+    from . import c04
+    from .common import reuse
+
+    reuse(ctx, "C11.R6", [c04.r5], "the rounded set-point reaches the wire unchanged: the set-point conversion is exact on the model's resolution grid (C04.R5)",
+          keep=lambda o: "set_point" in o.construct or "setpoint" in o.construct.lower() or o.verdict != "HOLDS")
 
 
 def _tx_nodes(f: Fn):
